@@ -12,6 +12,12 @@ inductive PyErr
   | raised (cls : String) (arg : String)
   deriving DecidableEq, Repr
 
+/-- `s[i]` on a `str`: IndexError when `i` is out of range (non-negative indices only) -/
+def idx (s : List Char) (i : Nat) : Except PyErr Char :=
+  match s[i]? with
+  | some c => pure c
+  | none => throw (.raised "IndexError" "string index out of range")
+
 /-- `A and B` with Python's evaluation order -/
 def andM (a b : Except PyErr Bool) : Except PyErr Bool :=
   a >>= fun x => if x then b else pure false
@@ -86,6 +92,8 @@ theorem error_bind {α β : Type} (e : PyErr) (f : α → Except PyErr β) :
 theorem orM_ok (a b : Bool) : orM (.ok a) (.ok b) = .ok (a || b) := by cases a <;> rfl
 theorem andM_ok (a b : Bool) : andM (.ok a) (.ok b) = .ok (a && b) := by cases a <;> rfl
 theorem notM_ok (a : Bool) : notM (.ok a) = .ok (!a) := rfl
+theorem idx_lt (s : List Char) (i : Nat) (h : i < s.length) : idx s i = .ok s[i] := by
+  unfold idx; simp [h]; rfl
 theorem dt_some (v : TVal) : dt (some v) = .ok v := rfl
 theorem dtDur_some (v : Int) : dtDur (some v) = .ok v := rfl
 
